@@ -86,6 +86,9 @@ def resugar(e):
         except (KeyError, IndexError):
             return e
     if k == "loop" and e.get("src") != "While":
+        r_ = _rotate_loop(e)
+        if r_ is not None:
+            return r_
         # loop { if C { return V; } REST }   ==   while !C { REST }  return V      (no break/continue anywhere in the body)
         try:
             b = e["b"]
@@ -146,6 +149,53 @@ def resugar(e):
             if pm in mac and k in ("call", "mcall", "block", "match"):
                 return {"k": "panic", "name": pm, "ln": e.get("ln"), "ty": e.get("ty")}
     return e
+
+
+def _rotate_loop(e):
+    """`loop { PRE; if C { break V } POST }`  ==  `{ PRE; while !C { POST; PRE' } V }` where PRE' is PRE with its `let x = init` turned into `x = init`
+    (loop rotation). PRE: simple `let` bindings and assignments without control flow; exactly one `break` (with a value), no `continue`/`return`, no nested loop
+    that could own the break. Returns the rewritten expression or None."""
+    import copy
+    try:
+        b = e["b"]
+        st = list(b["stmts"]) + ([{"k": "semi", "e": b["e"]}] if "e" in b else [])
+        jumps = [x for x in walk(b) if x.get("k") in ("break", "continue", "ret")]
+        if len(jumps) != 1 or jumps[0].get("k") != "break" or "e" not in jumps[0]:
+            return None
+        if any(x.get("k") in ("loop", "while", "for", "closure") for s_ in st for x in walk(s_.get("e") or s_.get("init") or {})):
+            return None
+        pos = None
+        for n, s_ in enumerate(st):
+            x = s_.get("e") if s_["k"] in ("expr", "semi") else None
+            if x and x.get("k") == "if" and "e" not in x and x["c"].get("k") != "letx":
+                t = x["t"]
+                lv = None
+                if t.get("k") == "block" and len(t["stmts"]) == 1 and "e" not in t and t["stmts"][0]["k"] in ("expr", "semi") and t["stmts"][0]["e"] is jumps[0]:
+                    lv = jumps[0]
+                elif t.get("k") == "block" and not t["stmts"] and t.get("e") is jumps[0]:
+                    lv = jumps[0]
+                elif t is jumps[0]:
+                    lv = jumps[0]
+                if lv is not None:
+                    pos = n
+                    break
+        if pos is None or pos == 0:
+            return None
+        pre, iff, post = st[:pos], st[pos]["e"], st[pos + 1:]
+        again = []
+        for s_ in pre:
+            if s_["k"] == "let" and s_["pat"].get("k") == "bind" and "sub" not in s_["pat"] and "init" in s_:
+                tgt = {"k": "path", "res": "local", "name": s_["pat"].get("name"), "id": s_["pat"]["id"], "ln": s_.get("ln"), "ty": s_["init"].get("ty")}
+                again.append({"k": "semi", "e": {"k": "assign", "l": tgt, "r": copy.deepcopy(s_["init"]), "ln": s_.get("ln"), "ty": "()"}})
+            elif s_["k"] in ("expr", "semi") and s_["e"].get("k") in ("assign", "assignop"):
+                again.append(copy.deepcopy(s_))
+            else:
+                return None
+        body = {"k": "block", "stmts": [x if x["k"] != "expr" else {"k": "semi", "e": x["e"]} for x in post] + again, "ln": b.get("ln"), "ty": "()"}
+        wh = {"k": "while", "c": {"k": "un", "op": "Not", "e": iff["c"], "ty": "bool", "ln": iff.get("ln")}, "body": body, "ln": e.get("ln"), "ty": "()", "rotated_loop": True}
+        return {"k": "block", "stmts": pre + [{"k": "semi", "e": wh}], "e": jumps[0]["e"], "ln": e.get("ln"), "ty": e.get("ty")}
+    except (KeyError, IndexError, TypeError):
+        return None
 
 
 def _refs_local(e, lid):
